@@ -2,6 +2,7 @@ import Coraza.Model.Decode
 import Coraza.Model.Engine
 import Driver.Engine
 import Driver.Json
+import Driver.Xml
 import Driver.Multipart
 /-! Driver engine `decode` (C03) -/
 namespace Driver.Decode
@@ -37,6 +38,7 @@ def model (args : List String) : Option String :=
     else pure s!"post={dump ps} args={dump ps} body={Bytes.toField raw}"
   | ["json", d, tree, _] => Driver.Json.model d tree
   | ["mp", _, parts, _] => Driver.Multipart.model parts
+  | ["xml", tree, _] => Driver.Xml.model tree
   | ["hdr", n, v, l] => do
     let name ← Bytes.ofField n
     let val ← Bytes.ofField v
